@@ -60,11 +60,16 @@ def install():
         if fault["kind"] == "write_enospc":
             open(path, "wb").close()
             STATE["events"].append(("w", os.path.basename(str(path)), 0, "write_enospc"))
+            if fault.get("plain"):
+                # the same text for every file, like pyarrow's own errors (which do not name the path)
+                raise OSError(errno.ENOSPC, "No space left on device (injected)")
             raise OSError(errno.ENOSPC, "No space left on device (injected)", str(path))
         k = max(1, min(len(data) - 1, int(len(data) * fault.get("frac", 0.5))))
         with open(path, "wb") as f:
             f.write(data[:k])
         STATE["events"].append(("w", os.path.basename(str(path)), k, "write_torn"))
+        if fault.get("plain"):
+            raise OSError(errno.EIO, "Input/output error (injected, torn write)")
         raise OSError(errno.EIO, "Input/output error (injected, torn write)", str(path))
 
     def read_feather(path, *args, **kwargs):
